@@ -456,6 +456,8 @@ A0 = [
     Datum("{0: 1}", lambda: {0: 1}), Datum("{1, 2}", lambda: {1, 2}), const(frozenset()),
     const(Decimal("1")), const(Decimal("NaN"), "Decimal(NaN)"), const(Decimal("sNaN"), "Decimal(sNaN)"),
     const(Decimal("Infinity"), "Decimal(Infinity)"), const(Decimal("1E+30"), "Decimal(1E+30)"),
+    # more significant digits than a float holds: seconds with a microsecond part beyond 2**53
+    const(Decimal("10000000000.000001"), "Decimal(10000000000.000001)"),
     const(Fraction(1, 2)), const(1j),
     const(_OBJ, "object()"),
     Datum("iter([1, 2])", lambda: iter([1, 2]), one_shot=True, tags={"iterator"}),
